@@ -757,6 +757,14 @@ func (jp *jobProvider) maintenanceJob(job *Job) int {
 		return maintenanceResultResumed
 	}
 
+	// a compressed job that never reached the end of its file was put aside because the file was still being written
+	// (worker.work): try again, and above all do not let remove_after take a file of which nothing was read
+	if job.isCompressed && job.eofReadInfo.getUnixNanoTimestamp() == 0 {
+		jp.tryResumeJobAndUnlock(job, filename)
+
+		return maintenanceResultResumed
+	}
+
 	// filename was changed
 	if filepath.Base(job.filename) != stat.Name() {
 		job.filename = filepath.Dir(job.filename) + stat.Name()
